@@ -27,6 +27,11 @@ def jobs(tier, ws, prop='C03'):
     js.append(Job('%s/hdr_len_NC_var' % prop, prop, HG, 'C03_hdr_var.c', enforce='ncmpio_header_get.c:hdr_len_NC_var',
                   replace=['ncmpio_header_get.c:hdr_len_NC_attrarray'], defines=['-DH_len'], canaries=['positive'], unwind=4, kind='proof'))
     js += begins_jobs(tier, prop)
+    if prop == 'C03':
+        js.append(Job('C03/ncmpio_create/clobber_phase', 'C03', ['src/drivers/ncmpio/ncmpio_create.c', 'src/drivers/common/error_mpi2nc.c'], 'C03_create.c', enforce='ncmpio_create',
+                      canaries=['prefixed_name_unlinked', 'truncated', 'exists_refused', 'removal_failed', 'fresh_create'], unwind=8, kind='bounded', timeout=300, solver=['--sat-solver', 'cadical'],
+                      bound='root process of 1 or 2; path with or without a file-system prefix; existence, file kind, create mode and errno of the removal symbolic; MPI_File_open fails (the function ends after the clobber phase)',
+                      assumptions=['ncmpio_create: lstat / unlink / truncate, ncmpii_remove_file_system_type_prefix, MPI_Comm_rank/size, MPI_Bcast (root) and MPI_File_open are harness stubs that record their arguments; only the clobber phase is covered']))
     ED = ['src/drivers/ncmpio/ncmpio_enddef.c', 'src/drivers/common/error_mpi2nc.c']
     js.append(Job('%s/ncmpio__enddef' % prop, prop, ED, 'C03_enddef.c', enforce='ncmpio__enddef',
                   replace=['ncmpio_NC_check_vlens', 'ncmpio_enddef.c:NC_begins', 'ncmpio_NC_check_voffs', 'ncmpio_enddef.c:move_record_vars',
